@@ -3777,8 +3777,13 @@ func (r *JournalReader) Next() (err error) {
 	}
 
 	// Read remaining fields from header.
-	r.nonce = binary.BigEndian.Uint32(hdr[12:])  // cksumInit
-	r.commit = binary.BigEndian.Uint32(hdr[16:]) // dbSize
+	r.nonce = binary.BigEndian.Uint32(hdr[12:]) // cksumInit
+
+	// The database is restored to the size recorded in the first header;
+	// SQLite ignores the size field of every later header.
+	if r.offset == 0 {
+		r.commit = binary.BigEndian.Uint32(hdr[16:]) // dbSize
+	}
 
 	// Only read sector and page size from first journal header.
 	if r.offset == 0 {
